@@ -211,7 +211,7 @@ typedef VouSkT<int64_t> VouSk;
 template<typename T> struct VouFamilyT: Family {
   const char* name() const override { static std::string n = std::is_same<T, int64_t>::value ? std::string("varopt_union") : std::string("varopt_union<") + NameOf<T>::s() + ">"; return n.c_str(); }
   int cfg_len() const override { return 1; }
-  void gen_cfg(sim::Rng& r, std::vector<i64>& cfg, int) const override { static const int ks[] = { 2, 5, 8, 16, 32 }; cfg.push_back(r.pick(ks)); }
+  void gen_cfg(sim::Rng& r, std::vector<i64>& cfg, int) const override { static const int ks[] = { 2, 5, 8, 16, 32, 64 }; cfg.push_back(r.pick(ks)); }
   Sk* make(const i64* cfg) const override { return new VouSkT<T>(typename VouSkT<T>::S(static_cast<uint32_t>(cfg[0]), typename VouSkT<T>::A(ARENA)), static_cast<uint32_t>(cfg[0])); }
 };
 typedef VouFamilyT<int64_t> VouFamily;
